@@ -155,8 +155,8 @@ class BinaryCarver(BaseCarver):
                 # computing crosstab with str_nan
                 xtab = crosstab(X[feature], y)
 
-                # reordering according to known_order
-                xtab = xtab.reindex(labels_orders[feature])
+                # reordering according to known_order (a modality without observation has no row)
+                xtab = xtab.reindex(labels_orders[feature], fill_value=0)
 
                 # storing results
                 xtabs.update({feature: xtab})
